@@ -40,6 +40,11 @@ def run(ctx):
     if not dev.violated:
         raise vf.Inconclusive("deviation HandsOverSendersMessage was not refuted by WrapMC:\n" + dev.out[-2000:])
     ctx.cov["deviation_HandsOverSendersMessage_refuted_by"] = dev.violated
+    dev = ctx.tlc("WrapMC", "WrapMC_latesethdr.cfg", consts={"MaxSteps": 5, "MaxMsgs": 2}, workers=4, timeout=600,
+                  deadlock=False)
+    if not dev.violated:
+        raise vf.Inconclusive("deviation LateSetHeaderJoins was not refuted by WrapMC:\n" + dev.out[-2000:])
+    ctx.cov["deviation_LateSetHeaderJoins_refuted_by"] = dev.violated
 
     gen = ctx.tlc("WrapGen", "WrapGen.cfg", consts={"NCases": ncases, "MaxMsgs": maxmsgs, "MaxLen": maxlen, "CxPct": 7, "DlPct": 15},
                   workers=4, timeout=1800)
@@ -134,7 +139,8 @@ def run(ctx):
                        "handler that has seen its context end may carry on with SetHeader/SendHeader/Send/SetTrailer while "
                        "the client reads Header()/Trailer(); the handler keeps writing to (and recycles) every metadata.MD it "
                        "has handed over, the client writes to every MD it was handed; every sender (client and handler) alters "
-                       "its message as soon as SendMsg has returned; a quarter of the calls that run to their end are made "
+                       "its message as soon as SendMsg has returned; SetHeader may come at any point, also after the headers went "
+                       "out (never visible to the client; error / no error to the handler compared with the connection); a quarter of the calls that run to their end are made "
                        "on a context without outgoing metadata (none, or only incoming metadata of an outer call); a "
                        "blocked client op may stay pending "
                        "over server steps; plus every refused call (unknown method/service, each wrong stream shape).  Each script runs "
@@ -144,7 +150,8 @@ def run(ctx):
     ctx.assumptions.append("scripts are well-matched: every send meets a receiver that is ready, no side relies on buffering")
     ctx.assumptions.append("not asserted: trailers of calls the client ended itself; what the handler observes after the "
                            "client's context ended; Invoke on a streaming method (Unimplemented vs Internal unsettled); "
-                           "SetHeader/SendHeader after the handler's headers were written (gRPC refuses them): not generated")
+                           "SendHeader after the handler's headers were written: not generated; the handler's Recv result when "
+                           "the client cancels (io.EOF in the wrapper, Canceled over a connection): server-side, not asserted")
 
 
 MANIFEST = {'engine': "spec/Wrap.tla + WrapMC/WrapGen/WrapTrace.tla (TLC) + harness 'wrapx' (wrap.ServerToClient vs grpc over bufconn)",
@@ -169,4 +176,4 @@ MANIFEST = {'engine': "spec/Wrap.tla + WrapMC/WrapGen/WrapTrace.tla (TLC) + harn
  'note': 'Trusted base: TLC evaluating the TLA+ predicates; grpc-go v1.67.1 over bufconn as the reference; the harness '
          'reporting faithfully what each side observed. The schedule inside a step is sampled, not enumerated. '
          'Not asserted: trailer metadata of calls ended by the client itself, handler-side observations after the '
-         'context ended, Invoke on a streaming method, SetHeader/SendHeader after the headers were written.'}
+         'context ended, Invoke on a streaming method, SendHeader after the headers were written.'}
